@@ -17,16 +17,25 @@ Arguments N.of_nat : simpl never.
 Lemma nth_zeros : forall n j, nth j (zeros n) 0 = 0.
 Proof. induction n; intros [|j]; simpl; auto. Qed.
 
-(* reading beyond the current end of a file gives 0 (nth's default), which is what the
-   zero-extension of ftruncate stores there: resizing never changes [raw] inside the file *)
-Lemma raw_resize : forall l n o, o < n ->
-  nth (N.to_nat o) (resize l n) 0 = nth (N.to_nat o) l 0.
+Lemma lookup_filter : forall m o cells,
+  lookup o (filter (fun kb : N * N => fst kb <? m) cells) = if o <? m then lookup o cells else None.
 Proof.
-  intros l n o Ho. unfold resize.
-  destruct (Nat.ltb_spec (N.to_nat o) (length l)) as [H|H].
-  - rewrite app_nth1 by (rewrite firstn_length; lia). apply nth_firstn_lt. lia.
-  - rewrite (nth_overflow l) by lia.
-    rewrite app_nth2 by (rewrite firstn_length; lia). apply nth_zeros.
+  induction cells as [|[k v] r IH]; simpl.
+  - destruct (o <? m); reflexivity.
+  - destruct (N.ltb_spec k m); simpl.
+    + destruct (N.eqb_spec k o) as [->|]; auto.
+      destruct (N.ltb_spec o m); [reflexivity|lia].
+    + rewrite IH. destruct (N.eqb_spec k o) as [->|]; auto.
+      destruct (N.ltb_spec o m); [lia|reflexivity].
+Qed.
+
+(* reading beyond the current end of a file gives 0, which is what the zero-extension of
+   ftruncate stores there: resizing never changes [f_raw] inside the new size *)
+Lemma raw_resize : forall l n o, o < n -> f_raw (f_resize l n) o = f_raw l o.
+Proof.
+  intros l n o Ho. unfold f_raw, f_resize. simpl. rewrite lookup_filter.
+  destruct (N.ltb_spec o n); [|lia].
+  destruct (N.ltb_spec o (N.min n (fi_len l))); destruct (N.ltb_spec o (fi_len l)); auto; lia.
 Qed.
 
 Lemma store_ext_raw : forall files w i s s' j f o, store_ext files w i s s' ->
@@ -287,8 +296,10 @@ Section Ops.
     length (s_store (fst (step c s o))) = length files.
   Proof.
     intros s o Hlen. destruct o; simpl; try apply do_chunk_store_length; auto.
-    destruct (_ || _); simpl; auto. destruct (nth _ _ _); simpl; auto.
-    destruct (inc_completed _ _ _); simpl; auto.
+    - destruct (_ || _); simpl; auto. destruct (nth _ _ _); simpl; auto.
+      destruct (inc_completed _ _ _); simpl; auto.
+    - destruct (_ <? _); simpl; auto.
+    - destruct (nth_error _ _); simpl; auto. destruct (f_pad _); simpl; auto.
   Qed.
 
   Theorem run_store_length : forall ops s, length (s_store s) = length files ->
@@ -310,7 +321,7 @@ Definition lay_ex : list (N * bool) := [(2, false); (0, false); (5, false); (1, 
 Example write_frame_ex : exists s' ps rd cmp,
   do_chunk (mk_cfg 3 lay_ex) (init_state (mk_cfg 3 lay_ex)) 6 3 true 0 [17; 18; 19] 0 3 =
   (s', OutChunk ps WOk rd cmp) /\ rd = Some [17; 18; 19] /\
-  s_store s' = [[]; []; [0; 0; 0; 0; 17]; []; []; [19; 0; 0; 0]].
+  map f_dump (s_store s') = [[]; []; [0; 0; 0; 0; 17]; []; []; [19; 0; 0; 0]].
 Proof. do 4 eexists. vm_compute. repeat split; reflexivity. Qed.
 
 (* two non-overlapping writes, both orders, as order_independent requires *)
@@ -321,5 +332,5 @@ Example order_independent_ex :
     do_chunk c sA 3 6 true 0 [9; 10; 11; 12] 0 0 = (sAB, OutChunk psB WOk rdB cB) /\
     do_chunk c s 3 6 true 0 [9; 10; 11; 12] 0 0 = (sB, OutChunk psB WOk rdB' cB') /\
     do_chunk c sB 0 3 true 1 [7; 8] 0 0 = (sBA, OutChunk psA WOk rdA' cA') /\
-    s_store sAB = s_store sBA.
+    map f_dump (s_store sAB) = map f_dump (s_store sBA).
 Proof. do 14 eexists. vm_compute. repeat split; reflexivity. Qed.
